@@ -11,6 +11,8 @@ fields_of("Limit", name=Str, interval_start=DT, interval_end=DT, period=Real, va
 
 ghost("LSlot", ["l", "i"], "dt(secs(l.interval_start) + i * l.slot_duration)")
 ghost("LDay", ["l", "i"], "floor(secs(LSlot(l, i))) // 86400 - floor(secs(l.interval_start)) // 86400")
+ghost("WeekOf", ["d"], "(floor(secs(d)) // 86400 + 3) // 7")       # absolute Monday-based week number of an instant
+ghost("LWeek", ["l", "i"], "WeekOf(LSlot(l, i)) - WeekOf(l.interval_start)")
 ghost("LimWf", ["l"], "l.slot_duration >= 1 and l.period > 0")
 
 contract(
@@ -20,6 +22,9 @@ contract(
     ensures=[
         # property: dailymax counts per calendar day
         ("daily", "implies(self.period == 86400, result == LDay(self, index))"),
+        # property: weeklymax counts per ISO (Monday-based) week: the index is the number of whole weeks between
+        # the week of the interval start and the week of the slot
+        ("weekly", "implies(self.period == 604800, result == LWeek(self, index))"),
         ("weekly-nonneg", "implies(self.period == 604800 and index >= 0, result >= 0)"),
         ("other", "implies(self.period != 86400 and self.period != 604800, result == trunc(index * self.slot_duration / self.period))"),
     ],
@@ -153,4 +158,23 @@ contract(
                  "and self._limits[k]._scoreboard == old(self._limits[k]._scoreboard) and self._limits[k].resource == old(self._limits[k].resource))"),
     ]}},
     modifies=["Limit._dirty", "$region:Limit._scoreboard"],
+)
+
+# ---- C14: period indices do not depend on where the project sits in the calendar (whole-week shifts) ----------------
+contract(
+    "lemma::period_index_week_shift", props=["C14", "C05"],
+    client_src="def lemma(s0, slot_secs, k):\n    pass\n",
+    params={"s0": Int, "slot_secs": Int, "k": Int},
+    requires=[],
+    ensures=[
+        ("weekly", "WeekOf(dt(s0 + 604800 * k + slot_secs)) - WeekOf(dt(s0 + 604800 * k)) == "
+                   "WeekOf(dt(s0 + slot_secs)) - WeekOf(dt(s0))"),
+        ("daily", "(s0 + 604800 * k + slot_secs) // 86400 - (s0 + 604800 * k) // 86400 == "
+                  "(s0 + slot_secs) // 86400 - s0 // 86400"),
+        ("weekday", "dt(s0 + 604800 * k).weekday() == dt(s0).weekday()"),
+        ("hour-minute", "dt(s0 + 604800 * k).hour == dt(s0).hour and dt(s0 + 604800 * k).minute == dt(s0).minute"),
+    ],
+    note="whole-second instants. The exact clauses of _idx_to_sb_idx (daily, weekly), WorkingHours.onShift and "
+         "_isDefaultWorkingTime are functions of exactly these calendar components; this lemma makes each of them "
+         "invariant under whole-week shifts of every date",
 )
